@@ -79,11 +79,15 @@ Definition cmp_stop (t : ptok) : bool :=
 
 Definition stops (n : nat) (t : ptok) : bool :=
   negb (kis t "(") && negb (kis t K_string)
-  && (negb (kis t ".") && negb (kis t "["))        (* the round-trip theorem below covers no postfix operators yet *)
+  && (Nat.eqb n 0 || (negb (kis t ".") && negb (kis t "[")))        (* a primary may be followed by a field access or a subscript *)
   && forallb (fun l => Nat.ltb n (level_of l) || no_level_op t l) all_levels
   && (Nat.ltb n 9 || cmp_stop t).
 
-Definition follow (n : nat) (K : toks) : Prop := K <> [] /\ stops n (cur K) = true.
+(* parseLit looks ahead over ident (. ident)* for an opening parenthesis (a function call): after a dot, no amount of fuel
+   makes that look-ahead answer true *)
+Definition dotcall (K : toks) : Prop := kis (cur K) "." = true -> forall f, lookahead_call f (next K) = false.
+
+Definition follow (n : nat) (K : toks) : Prop := K <> [] /\ stops n (cur K) = true /\ dotcall K.
 
 Lemma orb_ltb_mono n m c b : n <= m -> Nat.ltb m c || b = true -> Nat.ltb n c || b = true.
 Proof.
@@ -93,7 +97,7 @@ Qed.
 
 Lemma stops_parts n t : stops n t = true <->
   (kis t "(" = false /\ kis t K_string = false /\
-   (negb (kis t ".") && negb (kis t "[") = true) /\
+   (Nat.eqb n 0 || (negb (kis t ".") && negb (kis t "[")) = true) /\
    (forall l, In l all_levels -> Nat.ltb n (level_of l) || no_level_op t l = true) /\
    (Nat.ltb n 9 || cmp_stop t = true)).
 Proof.
@@ -104,12 +108,13 @@ Lemma stops_mono n m t : n <= m -> stops m t = true -> stops n t = true.
 Proof.
   intros L H. apply stops_parts in H as (A & B & C & D & E). apply stops_parts.
   repeat split; auto.
+  - apply orb_true_iff in C as [C|C]; [apply Nat.eqb_eq in C; assert (n = 0) as -> by lia; reflexivity|rewrite C; apply orb_true_r].
   - intros l Hl. eapply orb_ltb_mono; eauto.
   - eapply orb_ltb_mono; eauto.
 Qed.
 
 Lemma follow_mono n m K : n <= m -> follow m K -> follow n K.
-Proof. intros L [H1 H2]. split; [exact H1|eapply stops_mono; eauto]. Qed.
+Proof. intros L (H1 & H2 & H3). split; [exact H1|split; [eapply stops_mono; eauto|exact H3]]. Qed.
 
 Lemma stops_level n t l : stops n t = true -> level_of l <= n -> find_op t (level_ops l) = None.
 Proof.
@@ -120,9 +125,10 @@ Proof.
   - unfold no_level_op in D. destruct (find_op t (level_ops l)); [discriminate|reflexivity].
 Qed.
 
-Lemma stops_sel n t : stops n t = true -> kis t "." = false /\ kis t "[" = false.
+Lemma stops_sel n t : stops n t = true -> 1 <= n -> kis t "." = false /\ kis t "[" = false.
 Proof.
-  intros H. apply stops_parts in H as (A & B & C & D & E).
+  intros H L. apply stops_parts in H as (A & B & C & D & E).
+  apply orb_true_iff in C as [C|C]; [apply Nat.eqb_eq in C; lia|].
   apply andb_true_iff in C as [C1 C2]. apply negb_true_iff in C1, C2. auto.
 Qed.
 
@@ -160,10 +166,10 @@ Ltac cases13 n := destruct n as [|[|[|[|[|[|[|[|[|[|[|[|[|n]]]]]]]]]]]]].
 
 Lemma Cont_stop n e K : n <= 12 -> follow n K -> Cont n e K (e, K).
 Proof.
-  intros L [NE St].
+  intros L (NE & St & Dc).
   cases13 n; cbn [Cont]; try lia; auto;
     try (apply Parses_loop_stop; eapply stops_level; [exact St|cbn; lia]).
-  - (* 1: selector loop *) destruct (stops_sel _ _ St) as [A B].
+  - (* 1: selector loop *) destruct (stops_sel _ _ St (le_n _)) as [A B].
     apply (Parses_step _ _ _ 0). cbn [step]. rewrite A, B. reflexivity.
   - split; [reflexivity|]. eapply stops_cmp; eauto.
 Qed.
@@ -208,7 +214,7 @@ Proof. reflexivity. Qed.
 Lemma can_first n e : can n e ->
   exists t r, spell e = t :: r /\ (n <= 9 -> kis t "NOT" = false) /\ (n <= 1 -> not_sign t).
 Proof.
-  induction 1 as [n m e H IH L|e A|e H IH|c base v Hc Hu|c v Hc Hu|op e Hop H IH Hf|e H IH|op n l r Ho Hn Hl IHl Hr IHr|op l r Ho Hl IHl Hr IHr|neg l Hl IHl|neg l v Hl IHl|neg l s x Hl IHl Hs IHs Hx IHx|neg l x Hl IHl Hx IHx|neg l e1 es Hl IHl H1 IH1 Hes].
+  induction 1 as [n m e H IH L|e A|e H IH|c base v Hc Hu|c v Hc Hu|op e Hop H IH Hf|e H IH|op n l r Ho Hn Hl IHl Hr IHr|op l r Ho Hl IHl Hr IHr|neg l Hl IHl|neg l v Hl IHl|neg l s x Hl IHl Hs IHs Hx IHx|neg l x Hl IHl Hx IHx|neg l e1 es Hl IHl H1 IH1 Hes|n1 n2 ns Hp|x n Hx IHx Hpl|x ix Hx IHx Hi IHi Hf|x kw ix Hx IHx Hi IHi Hk|e1 e2 es H1 IH1 H2 IH2 Hes].
   - destruct IH as (t & r & E & A & B). exists t, r. split; [exact E|]. split; intros; [apply A|apply B]; lia.
   - destruct (atom_first e A) as (t & r & E & N & Sg & _). exists t, r. auto.
   - cbn [spell]. eexists _, _; split; [reflexivity|]. split; intros; [reflexivity|repeat split; reflexivity].
@@ -230,6 +236,11 @@ Proof.
   - destruct IHl as (t & r0 & E & A & B). cbn [spell]. rewrite E. eexists t, _. split; [reflexivity|]. split; [intros; apply A; lia|intros; lia].
   - destruct IHl as (t & r0 & E & A & B). cbn [spell]. rewrite E. eexists t, _. split; [reflexivity|]. split; [intros; apply A; lia|intros; lia].
   - destruct IHl as (t & r0 & E & A & B). rewrite spell_in_values. rewrite E. eexists t, _. split; [reflexivity|]. split; [intros; apply A; lia|intros; lia].
+  - cbn [spell]. eexists _, _; split; [reflexivity|]. split; intros; [reflexivity|repeat split; reflexivity].
+  - destruct IHx as (t & r0 & E & A & B). cbn [spell]. rewrite E. eexists t, _. split; [reflexivity|]. split; [intros; apply A; lia|exact B].
+  - destruct IHx as (t & r0 & E & A & B). cbn [spell]. rewrite E. eexists t, _. split; [reflexivity|]. split; [intros; apply A; lia|exact B].
+  - destruct IHx as (t & r0 & E & A & B). cbn [spell]. rewrite E. eexists t, _. split; [reflexivity|]. split; [intros; apply A; lia|exact B].
+  - cbn [spell]. eexists _, _; split; [reflexivity|]. split; intros; [reflexivity|repeat split; reflexivity].
 Qed.
 
 (* ---------- from level n to level n+1 ---------- *)
@@ -288,20 +299,26 @@ Proof.
   discriminate.
 Qed.
 
-Lemma follow_cons n t K : stops n t = true -> follow n (t :: K).
-Proof. intros H. split; [discriminate|exact H]. Qed.
+Lemma dotcall_nodot K : kis (cur K) "." = false -> dotcall K.
+Proof. intros H A. congruence. Qed.
+
+Lemma follow_cons n t K : stops n t = true -> kis t "." = false -> follow n (t :: K).
+Proof. intros H D. split; [discriminate|split; [exact H|apply dotcall_nodot; exact D]]. Qed.
+
+Lemma follow_cons_ge1 n t K : stops n t = true -> 1 <= n -> follow n (t :: K).
+Proof. intros H L. apply follow_cons; [exact H|apply (stops_sel _ _ H L)]. Qed.
 
 (* atoms *)
-Lemma lookahead_call_ident n K : K <> [] -> kis (cur K) "(" = false -> kis (cur K) "." = false ->
-  lookahead_call (length (t_ident n :: K)) (t_ident n :: K) = false.
+Lemma lookahead_call_ident n K f : K <> [] -> kis (cur K) "(" = false -> dotcall K ->
+  lookahead_call f (t_ident n :: K) = false.
 Proof.
-  intros NE A B. cbn [length lookahead_call]. change (kis (cur (t_ident n :: K)) K_ident) with true. cbn [negb].
-  rewrite (next_cons _ _ NE), A, B. reflexivity.
+  intros NE A D. destruct f as [|f]; [reflexivity|]. cbn [lookahead_call]. change (kis (cur (t_ident n :: K)) K_ident) with true. cbn [negb].
+  rewrite (next_cons _ _ NE), A. destruct (kis (cur K) ".") eqn:B; [apply D; exact B|reflexivity].
 Qed.
 
 Lemma atom_parses e K : atom e -> follow 0 K -> Parses MLit (spell e ++ K) (e, K).
 Proof.
-  intros A [NE St]. destruct (stops_gen _ _ St) as [G1 G2]. destruct (stops_sel _ _ St) as [D1 D2].
+  intros A (NE & St & Dc). destruct (stops_gen _ _ St) as [G1 G2].
   apply (Parses_step _ _ _ 0). destruct A; cbn [spell app step].
   - (* identifier *)
     cbn [id_name zident]. change (cur (t_ident n :: K)) with (t_ident n).
@@ -314,7 +331,7 @@ Proof.
     change (kis (t_ident n) "(") with false. change (kis (t_ident n) K_ident) with true. cbv iota.
     unfold plain_name in H. apply andb_true_iff in H as [P1 P2]. apply negb_true_iff in P1, P2.
     unfold is_kwlike. change (kis (t_ident n) K_ident) with true. cbn [andb praw t_ident]. rewrite P1, P2. cbn [orb].
-    rewrite (lookahead_call_ident n K NE G1 D1). rewrite (next_cons _ _ NE), G2. cbn [andb]. reflexivity.
+    rewrite (lookahead_call_ident n K _ NE G1 Dc). rewrite (next_cons _ _ NE), G2. cbn [andb]. reflexivity.
   - rewrite (next_cons _ _ NE). reflexivity.
   - destruct v; rewrite (next_cons _ _ NE); reflexivity.
   - destruct v as [|c v]; [discriminate|]. unfold unsigned in H. apply negb_true_iff in H. rewrite H. cbn [app].
@@ -335,7 +352,7 @@ Proof. intros H. cbn [skip_lparens cur]. rewrite H. reflexivity. Qed.
 (* spelled expressions begin with some "(" tokens followed by a token that is neither "(" nor SELECT *)
 Lemma can_lparens n e : can n e -> exists ps t r, spell e = ps ++ t :: r /\ Forall (fun p => p = tk "(") ps /\ kis t "(" = false /\ kis t "SELECT" = false.
 Proof.
-  induction 1 as [n m e H IH L|e A|e H IH|c base v Hc Hu|c v Hc Hu|op e Hop H IH Hf|e H IH|op n l r Ho Hn Hl IHl Hr IHr|op l r Ho Hl IHl Hr IHr|neg l Hl IHl|neg l v Hl IHl|neg l s x Hl IHl Hs IHs Hx IHx|neg l x Hl IHl Hx IHx|neg l e1 es Hl IHl H1 IH1 Hes].
+  induction 1 as [n m e H IH L|e A|e H IH|c base v Hc Hu|c v Hc Hu|op e Hop H IH Hf|e H IH|op n l r Ho Hn Hl IHl Hr IHr|op l r Ho Hl IHl Hr IHr|neg l Hl IHl|neg l v Hl IHl|neg l s x Hl IHl Hs IHs Hx IHx|neg l x Hl IHl Hx IHx|neg l e1 es Hl IHl H1 IH1 Hes|n1 n2 ns Hp|x n Hx IHx Hpl|x ix Hx IHx Hi IHi Hf|x kw ix Hx IHx Hi IHi Hk|e1 e2 es H1 IH1 H2 IH2 Hes].
   - exact IH.
   - destruct (atom_first e A) as (t & r & E & N & Sg & Pn & Se). exists [], t, r. rewrite E. repeat split; auto.
   - destruct IH as (ps & t & r & E & F & A & B). exists (tk "(" :: ps), t, (r ++ [tk ")"]). cbn [spell]. rewrite E.
@@ -355,6 +372,12 @@ Proof.
   - destruct IHl as (ps & t & r0 & E & F & A & B). cbn [spell]. rewrite E. eexists ps, t, _. split; [rewrite <- app_assoc; reflexivity|auto].
   - destruct IHl as (ps & t & r0 & E & F & A & B). cbn [spell]. rewrite E. eexists ps, t, _. split; [rewrite <- app_assoc; reflexivity|auto].
   - destruct IHl as (ps & t & r0 & E & F & A & B). rewrite spell_in_values. rewrite E. eexists ps, t, _. split; [rewrite <- app_assoc; reflexivity|auto].
+  - cbn [spell]. eexists [], _, _. split; [reflexivity|]. repeat split; auto.
+  - destruct IHx as (ps & t & r0 & E & F & A & B). cbn [spell]. rewrite E. eexists ps, t, _. split; [rewrite <- app_assoc; reflexivity|auto].
+  - destruct IHx as (ps & t & r0 & E & F & A & B). cbn [spell]. rewrite E. eexists ps, t, _. split; [rewrite <- app_assoc; reflexivity|auto].
+  - destruct IHx as (ps & t & r0 & E & F & A & B). cbn [spell]. rewrite E. eexists ps, t, _. split; [rewrite <- app_assoc; reflexivity|auto].
+  - destruct IH1 as (ps & t & r0 & E & F & A & B). cbn [spell]. rewrite E. eexists (tk "(" :: ps), t, _. split; [cbn [app]; rewrite <- app_assoc; reflexivity|].
+    repeat split; auto.
 Qed.
 
 Lemma skip_lparens_run ps t rest f : Forall (fun p => p = tk "(") ps -> kis t "(" = false -> length ps < f ->
@@ -563,7 +586,7 @@ Proof.
     assert (NK : K' <> []) by (unfold K'; destruct (spell_more r); discriminate).
     assert (PE : Parses (MBin BOr) (spell e ++ K') (e, K')).
     { apply Se.
-      - split; [exact NK|]. unfold K'. destruct r as [|x r']; cbn [spell_more app cur]; vm_compute; reflexivity.
+      - unfold K'. destruct r as [|x r']; cbn [spell_more app]; apply follow_cons; vm_compute; reflexivity.
       - cbn [Cont]. apply Parses_loop_stop. unfold K'. destruct r as [|x r']; cbn [spell_more app cur]; reflexivity. }
     destruct (Parses_fuel _ _ _ PE) as [F2 H2].
     exists (F1 + F2). intros F n LF Ln. destruct n as [|n]; [cbn in Ln; lia|].
@@ -603,24 +626,134 @@ Proof.
     unfold expect. cbn [cur]. change (kis (tk ")") ")") with true. cbv iota. cbn [bind]. rewrite (next_cons _ _ N2). reflexivity.
 Qed.
 
+(* ---------- field access, subscripts, tuples ---------- *)
+Lemma mk_ident_t n : mk_ident (t_ident n) = zident n.
+Proof. reflexivity. Qed.
+
+(* what the selector loop builds from its accumulator and one more name *)
+Definition extend (acc : expr) (i : ident) : expr :=
+  match acc with EIdent a => EPath [a; i] | EPath ids => EPath (ids ++ [i]) | _ => ESelector acc i end.
+
+Lemma Parses_selloop_dot acc n K r : K <> [] ->
+  Parses (MSelLoop (extend acc (zident n))) K r -> Parses (MSelLoop acc) (tk "." :: t_ident n :: K) r.
+Proof.
+  intros NE H. common_fuel F. at_fuel F. apply (Parses_step _ _ _ F). cbn [step].
+  change (cur (tk "." :: t_ident n :: K)) with (tk "."). change (kis (tk ".") ".") with true. cbv iota.
+  rewrite (next_cons (tk ".")) by discriminate. change (cur (t_ident n :: K)) with (t_ident n).
+  change (kis (t_ident n) "*") with false. cbv iota.
+  unfold parse_ident, expect. change (cur (t_ident n :: K)) with (t_ident n). change (kis (t_ident n) K_ident) with true. cbv iota. cbn [bind].
+  rewrite (next_cons _ _ NE). rewrite mk_ident_t. unfold extend in E. exact E.
+Qed.
+
+Lemma Parses_selloop_index acc ix ts_ix K r : ts_ix <> [] -> K <> [] ->
+  subscript_word (cur ts_ix) = false ->
+  Parses (MBin BOr) ts_ix (ix, tk "]" :: K) ->
+  Parses (MSelLoop (EIndex 0 acc (SExprArg ix))) K r -> Parses (MSelLoop acc) (tk "[" :: ts_ix) r.
+Proof.
+  intros N1 N2 SW H1 H2. common_fuel F. at_fuel F. apply (Parses_step _ _ _ F). cbn [step].
+  change (cur (tk "[" :: ts_ix)) with (tk "["). change (kis (tk "[") ".") with false. change (kis (tk "[") "[") with true. cbv iota.
+  rewrite (next_cons _ _ N1).
+  unfold subscript_word in SW. apply orb_false_iff in SW as [SW S4]. apply orb_false_iff in SW as [SW S3]. apply orb_false_iff in SW as [S1 S2].
+  rewrite S1, S2, S3, S4. run_fuel. unfold expect. cbn [cur]. change (kis (tk "]") "]") with true. cbv iota. cbn [bind].
+  rewrite (next_cons _ _ N2). assumption.
+Qed.
+
+Lemma Parses_selloop_indexkw acc kw ix ts_ix K r : ts_ix <> [] -> K <> [] -> position_keyword kw ->
+  Parses (MBin BOr) ts_ix (ix, tk ")" :: tk "]" :: K) ->
+  Parses (MSelLoop (EIndex 0 acc (SKeyword 0 0 kw ix))) K r ->
+  Parses (MSelLoop acc) (tk "[" :: t_ident kw :: tk "(" :: ts_ix) r.
+Proof.
+  intros N1 N2 PK H1 H2. common_fuel F. at_fuel F. apply (Parses_step _ _ _ F). cbn [step].
+  change (cur (tk "[" :: t_ident kw :: tk "(" :: ts_ix)) with (tk "["). change (kis (tk "[") ".") with false. change (kis (tk "[") "[") with true. cbv iota.
+  rewrite (next_cons (tk "[")) by discriminate. change (cur (t_ident kw :: tk "(" :: ts_ix)) with (t_ident kw).
+  rewrite (next_cons (t_ident kw)) by discriminate.
+  destruct PK as [->|[->|[-> | ->]]];
+    repeat match goal with |- context [is_ident_ci ?t ?w] => let v := eval vm_compute in (is_ident_ci t w) in change (is_ident_ci t w) with v end;
+    cbv iota; unfold expect at 1; cbn [cur]; change (kis (tk "(") "(") with true; cbv iota; cbn [bind];
+    rewrite (next_cons _ _ N1); run_fuel; unfold expect; cbn [cur]; change (kis (tk ")") ")") with true; cbv iota; cbn [bind];
+    rewrite (next_cons (tk ")")) by discriminate; cbn [cur]; change (kis (tk "]") "]") with true; cbv iota; cbn [bind];
+    rewrite (next_cons _ _ N2); assumption.
+Qed.
+
+Lemma spell_tuple a b e1 e2 es :
+  spell (ETuple a b (e1 :: e2 :: es)) = tk "(" :: spell e1 ++ tk "," :: spell e2 ++ spell_more es ++ [tk ")"].
+Proof. reflexivity. Qed.
+
+Lemma Parses_tuple e1 e2 es ts1 ts2 K : ts1 <> [] -> ts2 <> [] -> K <> [] ->
+  maybe_subquery (tk "(" :: ts1) = false ->
+  Parses (MBin BOr) ts1 (e1, tk "," :: ts2) ->
+  Parses (MBin BOr) ts2 (e2, spell_more es ++ tk ")" :: K) ->
+  Forall (fun e => S_ 12 e) es ->
+  Parses MLit (tk "(" :: ts1) (ETuple 0 0 (e1 :: e2 :: es), K).
+Proof.
+  intros N1 N2 N3 MS H1 H2 Fa. destruct (more_spell es K [e2] N3 Fa) as [F0 HM].
+  common_fuel F. set (G := F + F0). assert (GF0 : F0 <= G) by (unfold G; lia).
+  repeat match goal with
+         | Hf : forall f, ?f0 <= f -> P f ?m ?t = Ok ?r |- _ =>
+             let E := fresh "E" in assert (E : P G m t = Ok r) by (apply Hf; unfold G, F; lia); clear Hf
+         end.
+  apply (Parses_step _ _ _ G). cbn [step].
+  change (cur (tk "(" :: ts1)) with (tk "(").
+  change (kis (tk "(") "NULL") with false. change (kis (tk "(") "TRUE") with false. change (kis (tk "(") "FALSE") with false.
+  change (kis (tk "(") K_int) with false. change (kis (tk "(") K_float) with false. change (kis (tk "(") K_string) with false.
+  change (kis (tk "(") K_bytes) with false. change (kis (tk "(") K_param) with false.
+  change (kis (tk "(") "CASE" || kis (tk "(") "IF" || kis (tk "(") "CAST" || kis (tk "(") "EXISTS" || kis (tk "(") "EXTRACT"
+          || kis (tk "(") "WITH" || kis (tk "(") "ARRAY" || kis (tk "(") "STRUCT" || kis (tk "(") "[" || kis (tk "(") "NEW"
+          || kis (tk "(") "{") with false.
+  change (kis (tk "(") "(") with true. cbv iota. rewrite MS.
+  rewrite (next_cons _ _ N1). run_fuel. change (cur (tk "," :: ts2)) with (tk ",").
+  change (kis (tk ",") ")") with false. change (kis (tk ",") ",") with true. cbn [negb]. cbv iota.
+  rewrite (next_cons _ _ N2). run_fuel.
+  assert (LM : length es < length (spell_more es ++ tk ")" :: K)).
+  { rewrite app_length. cbn [length]. pose proof (length_spell_more es). lia. }
+  rewrite (HM G _ GF0 LM). cbn [bind app].
+  unfold expect. cbn [cur]. change (kis (tk ")") ")") with true. cbv iota. cbn [bind]. rewrite (next_cons _ _ N3). reflexivity.
+Qed.
+
+(* the look-ahead for a function call walks over a whole dotted name *)
+Lemma la_path : forall ns n K f, K <> [] -> kis (cur K) "(" = false -> dotcall K ->
+  lookahead_call f (t_ident n :: path_tail (map zident ns) ++ K) = false.
+Proof.
+  induction ns as [|m ns IH]; intros n K f NE A D.
+  - apply lookahead_call_ident; auto.
+  - destruct f as [|f]; [reflexivity|]. cbn [map path_tail app id_name zident].
+    set (T := path_tail (map zident ns) ++ K). cbn [lookahead_call].
+    change (cur (t_ident n :: tk "." :: t_ident m :: T)) with (t_ident n). change (kis (t_ident n) K_ident) with true. cbn [negb].
+    rewrite (next_cons (t_ident n)) by discriminate. change (cur (tk "." :: t_ident m :: T)) with (tk ".").
+    change (kis (tk ".") "(") with false. change (kis (tk ".") ".") with true. cbv iota.
+    rewrite (next_cons (tk ".")) by discriminate. apply IH; auto.
+Qed.
+
+Lemma path_loop : forall ns ids K r, K <> [] ->
+  Parses (MSelLoop (EPath (ids ++ map zident ns))) K r ->
+  Parses (MSelLoop (EPath ids)) (path_tail (map zident ns) ++ K) r.
+Proof.
+  induction ns as [|m ns IH]; intros ids K r NE H.
+  - cbn [map path_tail app] in *. rewrite app_nil_r in H. exact H.
+  - cbn [map path_tail app id_name zident]. apply Parses_selloop_dot.
+    + apply app_nonempty_r, NE.
+    + cbn [extend]. apply IH; [exact NE|]. rewrite <- app_assoc. exact H.
+Qed.
+
 Theorem can_S n e : can n e -> n <= 12 -> S_ n e.
 Proof.
   intros C. induction C as [n m e H IH L|e A|e H IH|c base v Hc Hu|c v Hc Hu|op e Hop H IH Hf|e H IH|op n l r Ho Hn Hl IHl Hr IHr|op l r Ho Hl IHl Hr IHr
-                           |neg l Hl IHl|neg l v Hl IHl|neg l s x Hl IHl Hs IHs Hx IHx|neg l x Hl IHl Hx IHx|neg l e1 es Hl IHl H1 IH1 Hes IHes] using can_ind';
+                           |neg l Hl IHl|neg l v Hl IHl|neg l s x Hl IHl Hs IHs Hx IHx|neg l x Hl IHl Hx IHx|neg l e1 es Hl IHl H1 IH1 Hes IHes
+                           |n1 n2 ns Hp|x n Hx IHx Hpl|x ix Hx IHx Hi IHi Hf|x kw ix Hx IHx Hi IHi Hk|e1 e2 es H1 IH1 H2 IH2 Hes IHes] using can_ind';
     intros L12.
   - (* cumulativity *) apply (lift_to n m); auto. apply IH. lia.
   - (* atom *) intros K r Fo Co. cbn in Co. subst r. apply atom_parses; auto.
   - (* ( e ) *)
-    intros K r [NE St] Co. cbn in Co. subst r. cbn [spell enter].
+    intros K r (NE & St & Dc) Co. cbn in Co. subst r. cbn [spell enter].
     replace ((tk "(" :: spell e ++ [tk ")"]) ++ K) with (tk "(" :: spell e ++ tk ")" :: K) by (cbn; rewrite <- app_assoc; reflexivity).
     eapply Parses_paren; eauto.
     + replace (spell e ++ tk ")" :: K) with (spell e ++ (tk ")" :: K)) by reflexivity. eapply no_subquery; eauto.
-    + apply (IH (le_n _)). { apply follow_cons. vm_compute. reflexivity. }
+    + apply (IH (le_n _)). { apply follow_cons; vm_compute; reflexivity. }
       cbn [Cont]. apply Parses_loop_stop. reflexivity.
   - (* signed integer literal *)
-    intros K r [NE St] Co. cbn in Co. subst r. cbn [spell enter].
+    intros K r (NE & St & Dc) Co. cbn in Co. subst r. cbn [spell enter].
     assert (F : first_byte_is_sign (c :: v) = true) by (destruct Hc as [->| ->]; reflexivity). rewrite F. cbn [app].
-    destruct (stops_sel _ _ St) as [D1 D2].
+    destruct (stops_sel _ _ St (le_n _)) as [D1 D2].
     eapply (Parses_unary_op (sign_tok c) _ (EInt 0 0 base v) K (if beq c x2b then bs "+" else bs "-")).
     + reflexivity.
     + destruct Hc as [->| ->]; [left|right; left]; repeat split; reflexivity.
@@ -632,9 +765,9 @@ Proof.
     + assert (NS : first_byte_is_sign v = false) by (unfold unsigned in Hu; destruct v; [discriminate|apply negb_true_iff in Hu; exact Hu]).
       rewrite NS. destruct Hc as [->| ->]; reflexivity.
   - (* signed float literal *)
-    intros K r [NE St] Co. cbn in Co. subst r. cbn [spell enter].
+    intros K r (NE & St & Dc) Co. cbn in Co. subst r. cbn [spell enter].
     assert (F : first_byte_is_sign (c :: v) = true) by (destruct Hc as [->| ->]; reflexivity). rewrite F. cbn [app].
-    destruct (stops_sel _ _ St) as [D1 D2].
+    destruct (stops_sel _ _ St (le_n _)) as [D1 D2].
     eapply (Parses_unary_op (sign_tok c) _ (EFloat 0 0 v) K (if beq c x2b then bs "+" else bs "-")).
     + reflexivity.
     + destruct Hc as [->| ->]; [left|right; left]; repeat split; reflexivity.
@@ -670,7 +803,7 @@ Proof.
     assert (NEr : spell r ++ K <> []) by (apply app_nonempty_r; apply Fo).
     apply (IHl L12).
     + (* the operator token stops every tighter level *)
-      rewrite Et. apply follow_cons. pose proof (optok_facts op n Ho) as S0. rewrite Et in S0. exact S0.
+      rewrite Et. apply follow_cons_ge1; [pose proof (optok_facts op n Ho) as S0; rewrite Et in S0; exact S0|lia].
     + rewrite <- Hlv. rewrite Cont_level. rewrite <- Hlv in Co. rewrite Cont_level in Co.
       eapply Parses_loop_go.
       * pose proof (level_find op n lv Ho Hlv) as Fd. rewrite Et in *. cbn [app cur]. exact Fd.
@@ -687,7 +820,7 @@ Proof.
     destruct (bytes_eqb op (bs "NOT LIKE")) eqn:ENL.
     + apply bytes_eqb_eq in ENL. subst op. change (op_toks (bs "NOT LIKE")) with [tk "NOT"; tk "LIKE"]. cbn [app].
       eapply Parses_not_like.
-      * apply (IHl ltac:(lia)). { apply follow_cons. vm_compute. reflexivity. } cbn [Cont]. apply Parses_loop_stop. reflexivity.
+      * apply (IHl ltac:(lia)). { apply follow_cons; vm_compute; reflexivity. } cbn [Cont]. apply Parses_loop_stop. reflexivity.
       * reflexivity.
       * reflexivity.
       * rewrite (next_cons (tk "NOT")) by discriminate. rewrite (next_cons _ _ NEr). exact PR.
@@ -695,7 +828,7 @@ Proof.
       rewrite Et. cbn [app].
       eapply Parses_cmp_op.
       * apply (IHl ltac:(lia)).
-        { apply follow_cons. pose proof (optok_facts op 9 Ho) as S0. rewrite Et in S0. eapply stops_mono; [|exact S0]. cbn; lia. }
+        { apply follow_cons_ge1; [|cbn; lia]. pose proof (optok_facts op 9 Ho) as S0. rewrite Et in S0. eapply stops_mono; [|exact S0]. cbn; lia. }
         cbn [Cont]. apply Parses_loop_stop.
         pose proof (optok_facts op 9 Ho) as S0. rewrite Et in S0. cbn [cur] in S0. eapply (stops_level 8 _ BBitOr); [exact S0|reflexivity].
       * exact Ft.
@@ -706,7 +839,7 @@ Proof.
       by (destruct neg; reflexivity).
     apply Parses_is_null; [apply Fo|].
     apply (IHl ltac:(lia)).
-    + apply follow_cons. vm_compute. reflexivity.
+    + apply follow_cons; vm_compute; reflexivity.
     + cbn [Cont]. apply Parses_loop_stop. reflexivity.
   - (* IS [NOT] TRUE / FALSE *)
     intros K rr Fo Co. cbn [Cont] in Co. destruct Co as [-> Cs]. cbn [spell enter]. rewrite <- app_assoc.
@@ -714,7 +847,7 @@ Proof.
       with (tk "IS" :: (if neg then [tk "NOT"] else []) ++ tk (if v then "TRUE" else "FALSE") :: K) by (destruct neg; reflexivity).
     apply Parses_is_bool; [apply Fo|].
     apply (IHl ltac:(lia)).
-    + apply follow_cons. vm_compute. reflexivity.
+    + apply follow_cons; vm_compute; reflexivity.
     + cbn [Cont]. apply Parses_loop_stop. reflexivity.
   - (* [NOT] BETWEEN s AND x *)
     intros K rr Fo Co. cbn [Cont] in Co. destruct Co as [-> Cs]. cbn [spell enter]. rewrite <- app_assoc.
@@ -730,7 +863,7 @@ Proof.
       * destruct neg; apply follow_cons; vm_compute; reflexivity.
       * cbn [Cont]. apply Parses_loop_stop. destruct neg; reflexivity.
     + apply (IHs ltac:(lia)).
-      * apply follow_cons. vm_compute. reflexivity.
+      * apply follow_cons; vm_compute; reflexivity.
       * cbn [Cont]. apply Parses_loop_stop. reflexivity.
     + apply (IHx ltac:(lia) K (x, K)); [eapply follow_mono; [|exact Fo]; lia|]. cbn [Cont]. apply Parses_loop_stop.
       eapply (stops_level 8 _ BBitOr); [apply Fo|reflexivity].
@@ -745,7 +878,7 @@ Proof.
     + apply (IHl ltac:(lia)).
       * destruct neg; apply follow_cons; vm_compute; reflexivity.
       * cbn [Cont]. apply Parses_loop_stop. destruct neg; reflexivity.
-    + apply (IHx (le_n _)). { apply follow_cons. vm_compute. reflexivity. }
+    + apply (IHx (le_n _)). { apply follow_cons; vm_compute; reflexivity. }
       cbn [Cont]. apply Parses_loop_stop. reflexivity.
   - (* [NOT] IN ( e1 , ... ) *)
     intros K rr Fo Co. cbn [Cont] in Co. destruct Co as [-> Cs]. cbn [enter]. rewrite spell_in_values. rewrite <- app_assoc.
@@ -761,7 +894,58 @@ Proof.
       * destruct neg; apply follow_cons; vm_compute; reflexivity.
       * cbn [Cont]. apply Parses_loop_stop. destruct neg; reflexivity.
     + apply (IH1 (le_n _)).
-      * split; [exact NE2|]. destruct es as [|x r']; cbn [spell_more app cur]; vm_compute; reflexivity.
+      * destruct es as [|x r']; cbn [spell_more app]; apply follow_cons; vm_compute; reflexivity.
+      * cbn [Cont]. apply Parses_loop_stop. destruct es as [|x r']; cbn [spell_more app cur]; reflexivity.
+    + rewrite Forall_forall in *. intros x Hx. apply (IHes x Hx). lia.
+  - (* a . b . c *)
+    intros K r (NE & St & Dc) Co. cbn [Cont] in Co. cbn [spell enter id_name zident path_tail app].
+    set (T := path_tail (map zident ns) ++ K).
+    assert (NT : T <> []) by (apply app_nonempty_r, NE).
+    eapply Parses_sel.
+    + apply (atom_parses (EIdent (zident n1)) (tk "." :: t_ident n2 :: T) (AIdent n1 Hp)).
+      split; [discriminate|]. split; [reflexivity|]. intros _ f. rewrite (next_cons (tk ".")) by discriminate.
+      apply la_path; [exact NE|apply (stops_gen _ _ St)|exact Dc].
+    + apply Parses_selloop_dot; [exact NT|]. cbn [extend]. apply path_loop; [exact NE|]. exact Co.
+  - (* x . name *)
+    intros K r (NE & St & Dc) Co. cbn [Cont] in Co. cbn [spell enter]. rewrite <- app_assoc. cbn [app].
+    apply (IHx ltac:(lia)).
+    + split; [discriminate|]. split; [reflexivity|]. intros _ f. rewrite (next_cons (tk ".")) by discriminate.
+      apply lookahead_call_ident; [exact NE|apply (stops_gen _ _ St)|exact Dc].
+    + cbn [Cont]. apply Parses_selloop_dot; [exact NE|]. destruct x; try discriminate Hpl; exact Co.
+  - (* x [ ix ] *)
+    intros K r (NE & St & Dc) Co. cbn [Cont] in Co. cbn [spell enter]. rewrite <- app_assoc. cbn [app]. rewrite <- app_assoc. cbn [app].
+    apply (IHx ltac:(lia)).
+    + apply follow_cons; vm_compute; reflexivity.
+    + cbn [Cont]. apply (Parses_selloop_index x ix (spell ix ++ tk "]" :: K) K r).
+      * apply app_nonempty_r. discriminate.
+      * exact NE.
+      * destruct (can_first 12 ix Hi) as (t & r0 & E & _). unfold free_subscript in Hf. rewrite E in *. cbn [app cur].
+        apply negb_true_iff in Hf. exact Hf.
+      * apply (IHi (le_n _)); [apply follow_cons; vm_compute; reflexivity|]. cbn [Cont]. apply Parses_loop_stop. reflexivity.
+      * exact Co.
+  - (* x [ OFFSET ( ix ) ] *)
+    intros K r (NE & St & Dc) Co. cbn [Cont] in Co. cbn [spell enter]. rewrite <- app_assoc. cbn [app]. rewrite <- app_assoc. cbn [app].
+    apply (IHx ltac:(lia)).
+    + apply follow_cons; vm_compute; reflexivity.
+    + cbn [Cont]. apply (Parses_selloop_indexkw x kw ix (spell ix ++ tk ")" :: tk "]" :: K) K r).
+      * apply app_nonempty_r. discriminate.
+      * exact NE.
+      * exact Hk.
+      * apply (IHi (le_n _)); [apply follow_cons; vm_compute; reflexivity|]. cbn [Cont]. apply Parses_loop_stop. reflexivity.
+      * exact Co.
+  - (* ( e1 , e2 , ... ) *)
+    intros K r (NE & St & Dc) Co. cbn in Co. subst r. rewrite spell_tuple. cbn [enter app].
+    rewrite <- app_assoc. cbn [app]. rewrite <- app_assoc. rewrite <- app_assoc. cbn [app].
+    assert (NE3 : spell_more es ++ tk ")" :: K <> []) by (destruct (spell_more es); discriminate).
+    assert (NE2 : spell e2 ++ spell_more es ++ tk ")" :: K <> []) by (apply app_nonempty_r; exact NE3).
+    apply (Parses_tuple e1 e2 es (spell e1 ++ tk "," :: spell e2 ++ spell_more es ++ tk ")" :: K) (spell e2 ++ spell_more es ++ tk ")" :: K) K).
+    + apply app_nonempty_r. discriminate.
+    + exact NE2.
+    + exact NE.
+    + eapply no_subquery; eauto.
+    + apply (IH1 (le_n _)); [apply follow_cons; vm_compute; reflexivity|]. cbn [Cont]. apply Parses_loop_stop. reflexivity.
+    + apply (IH2 (le_n _)).
+      * destruct es as [|x r']; cbn [spell_more app]; apply follow_cons; vm_compute; reflexivity.
       * cbn [Cont]. apply Parses_loop_stop. destruct es as [|x r']; cbn [spell_more app cur]; reflexivity.
     + rewrite Forall_forall in *. intros x Hx. apply (IHes x Hx). lia.
 Qed.
@@ -770,7 +954,7 @@ Qed.
 Theorem parse_spell e : can 12 e -> Parses (MBin BOr) (spell e ++ [eof_tok]) (e, [eof_tok]).
 Proof.
   intros C. apply (can_S 12 e C (le_n _)).
-  - apply follow_cons. vm_compute. reflexivity.
+  - apply follow_cons; vm_compute; reflexivity.
   - cbn [Cont]. apply Parses_loop_stop. reflexivity.
 Qed.
 
@@ -800,7 +984,7 @@ Definition root_level (e : expr) : nat :=
    (numeric literals with a folded sign are primaries for the printer: level 0) *)
 Lemma can_root_level n e : can n e -> root_level e <= n.
 Proof.
-  induction 1 as [n m e H IH L|e A|e H IH|c base v Hc Hu|c v Hc Hu|op e Hop H IH Hf|e H IH|op n l r Ho Hn Hl IHl Hr IHr|op l r Ho Hl IHl Hr IHr|neg l Hl IHl|neg l v Hl IHl|neg l s x Hl IHl Hs IHs Hx IHx|neg l x Hl IHl Hx IHx|neg l e1 es Hl IHl H1 IH1 Hes];
+  induction 1 as [n m e H IH L|e A|e H IH|c base v Hc Hu|c v Hc Hu|op e Hop H IH Hf|e H IH|op n l r Ho Hn Hl IHl Hr IHr|op l r Ho Hl IHl Hr IHr|neg l Hl IHl|neg l v Hl IHl|neg l s x Hl IHl Hs IHs Hx IHx|neg l x Hl IHl Hx IHx|neg l e1 es Hl IHl H1 IH1 Hes|n1 n2 ns Hp|x n Hx IHx Hpl|x ix Hx IHx Hi IHi Hf|x kw ix Hx IHx Hi IHi Hk|e1 e2 es H1 IH1 H2 IH2 Hes];
     cbn [root_level]; try lia; try (rewrite Ho; lia).
   - destruct A; cbn; lia.
   - destruct Hop as [->|[->| ->]]; cbn; lia.
